@@ -204,7 +204,7 @@ func c04table(args []string) error {
 			// the largest table message once more, repeated to 3 MiB + 17 bytes: one Write, one-shot, and 4 KiB Writes agree (the
 			// digest is a function of the byte string; TLC's value for the chunked form is established on the shorter messages)
 			if len(m) >= 65537 && string(got[:1]) != "S" && string(got[:1]) != "W" {
-				bigm := bytes.Repeat(m, (3<<20)/len(m)+1)[:3<<20+17]
+				bigm := bytes.Repeat(m, (3<<20+17)/len(m)+1)[:3<<20+17]
 				hb := sm3.New()
 				for off := 0; off < len(bigm); off += 4096 {
 					end := off + 4096
